@@ -58,6 +58,8 @@ def checkAS (P : Prims) (e : Expect) (et : EType) (key : Bytes) (wantPA : Bool) 
     let body := (fld v 3).getD (.seq [])
     check (((fld v 0) >>= asInt) == some 5) "pvno" ++
     check (((fld v 1) >>= asInt) == some 10) "msg-type" ++
+    check (match fld v 2 with | some (.list []) => false | _ => true)
+      "padata is present but empty (RFC 4120 5.4.1: NOT empty)" ++
     checkBody e body ++
     (match pas.find? (·.1 = 2) with
      | none => check (¬ wantPA) "PA-ENC-TIMESTAMP missing"
